@@ -83,6 +83,13 @@ def evaluate(case):
             f.append(("constructor_raises_" + type(e).__name__, f"{conc['prods']!r}: {str(e)[-200:]}"))
             continue
         amb = parser.is_ambiguous()
+        if case.get("describe"):
+            # the description of the prepared grammar is printed first (a read-only look at the parser)
+            import contextlib
+            import io
+            with contextlib.redirect_stdout(io.StringIO()):
+                parser.print_detailed_descr()
+            classes.add("description_printed_before_parsing")
         if ll1 and amb:
             f.append(("ll1_grammar_reported_ambiguous", f"smart_factorization={smart} grammar={conc['prods']!r} "
                       f"start={conc['start']!r}"))
@@ -366,7 +373,7 @@ def st_case(draw):
     G = gk.Grammar(g["prods"], g["start"], set(g["terms"]))
     inputs = draw(st_inputs(G, g, draw(st.integers(3, 8)), max_tokens=10, multiline=False))
     return {"g": g, "dom": dom, "pool": draw(st.integers(0, 4)), "perm": draw(st.permutations(list(range(6)))),
-            "syn": draw(st.booleans()), "kw": False, "inputs": inputs,
+            "syn": draw(st.booleans()), "kw": False, "inputs": inputs, "describe": draw(st.integers(0, 3)) == 0,
             "exhaustive": ((5 if draw(st.integers(0, 3)) == 0 else 4) if len(g["terms"]) <= 3 else
                            (4 if draw(st.integers(0, 3)) == 0 else 3) if len(g["terms"]) == 4 else 3),
             "decl": draw(st.sampled_from([None, "bottomup", "bottomup", "shuffle"]).flatmap(
